@@ -204,47 +204,61 @@ def Port.setState (p : Port) (st : PState) : Port × List Out :=
 
 /-! ### slave side (`slave.rs`) -/
 
+/-- continue with the value, or report the overflow the Rust operator would raise -/
+def orOv {α β : Type} (x : Option α) (f : α → R β) : R β :=
+  match x with
+  | some a => f a
+  | none => .error .overflow
+
+/-- the port with an updated slave state -/
+def Port.withSlave (p : Port) (remote : PortId) (sy : SyncSt) (dl : DelaySt) (last : Option Int) : Port :=
+  { p with st := .slave remote sy dl last }
+
+/-- measurement of a complete peer exchange: ((t4' − t1) − (t3' − t2)) / 2, stamped t4' -/
+def peerMeasurement (t1 t2 t3 t4 : Nat) : Option Measurement :=
+  (timeSub t4 t1).bind fun a => (timeSub t3 t2).bind fun b => (durSub a b).bind fun d =>
+    (durHalf d).map fun half => { eventTime := t4, peerDelay := some half }
+
+/-- measurement of a complete Sync pair: raw = t2' − t1' − asym, offset = raw − mean_delay -/
+def syncMeasurement (send recv : Nat) (asym : Int) (meanDelay : Option Int) : Option (Int × Measurement) :=
+  (timeSub recv send).bind fun d0 => (durSub d0 asym).bind fun raw =>
+    match meanDelay with
+    | some md => (durSub raw md).map fun off => (raw, { eventTime := recv, rawSync := some raw, offset := some off })
+    | none => some (raw, { eventTime := recv, rawSync := some raw, offset := none })
+
+/-- measurement of a complete Delay pair: raw = t3 − t4' − asym, delay = (last_raw_sync − raw) / 2 -/
+def delayMeasurement (send recv : Nat) (asym : Int) (last : Option Int) : Option Measurement :=
+  (timeSub send recv).bind fun d0 => (durSub d0 asym).bind fun raw =>
+    match last with
+    | some rs => ((durSub rs raw).bind durHalf).map fun h => { eventTime := send, rawDelay := some raw, delay := some h }
+    | none => some { eventTime := send, rawDelay := some raw, delay := none }
+
+/-- the slave half of `extract_measurement` -/
+def Port.extractSlave (p : Port) : R (Port × Option Measurement × List Out) :=
+  match p.st with
+  | .slave remote sy dl last =>
+    match sy with
+    | .measuring _ (some send) (some recv) =>
+      orOv (syncMeasurement send recv p.cfg.delayAsymmetry p.meanDelay) fun rm =>
+        .ok (p.withSlave remote .empty dl (some rm.1), some rm.2, [])
+    | _ =>
+      match dl with
+      | .measuring _ (some send) (some recv) =>
+        orOv (delayMeasurement send recv p.cfg.delayAsymmetry last) fun m =>
+          .ok (p.withSlave remote sy .empty last, some m, [])
+      | _ => .ok (p, none, [])
+  | _ => .ok (p, none, [])
+
 /-- `extract_measurement` -/
 def Port.extract (p : Port) : R (Port × Option Measurement × List Out) :=
   match p.peer with
-  | .measuring id (some resp) (some reqSend) (some reqRecv) (some respSend) (some respRecv) => do
-    let a ← liftOv (timeSub respRecv reqSend)
-    let b ← liftOv (timeSub respSend reqRecv)
-    let d ← liftOv (durSub a b)
-    let half ← liftOv (durHalf d)
-    let m : Measurement := { eventTime := respRecv, peerDelay := some half }
-    let p := { p with peer := .post id resp }
-    if p.st = .faulty then
-      let (p, o) := p.setState .listening
-      .ok (p, some m, o)
-    else .ok (p, some m, [])
-  | _ =>
-    match p.st with
-    | .slave remote sync delay last =>
-      match sync with
-      | .measuring _ (some send) (some recv) => do
-        let d0 ← liftOv (timeSub recv send)
-        let raw ← liftOv (durSub d0 p.cfg.delayAsymmetry)
-        let off ← match p.meanDelay with
-          | some md => (liftOv (durSub raw md)).map some
-          | none => .ok none
-        let m : Measurement := { eventTime := recv, rawSync := some raw, offset := off }
-        .ok ({ p with st := .slave remote .empty delay (some raw) }, some m, [])
-      | _ =>
-        match delay with
-        | .measuring _ (some send) (some recv) => do
-          let d0 ← liftOv (timeSub send recv)
-          let raw ← liftOv (durSub d0 p.cfg.delayAsymmetry)
-          let dl ← match last with
-            | some rs => do
-              let x ← liftOv (durSub rs raw)
-              let h ← liftOv (durHalf x)
-              pure (some h)
-            | none => .ok none
-          let m : Measurement := { eventTime := send, rawDelay := some raw, delay := dl }
-          .ok ({ p with st := .slave remote sync .empty last }, some m, [])
-        | _ => .ok (p, none, [])
-    | _ => .ok (p, none, [])
+  | .measuring id (some resp) (some t1) (some t2) (some t3) (some t4) =>
+    orOv (peerMeasurement t1 t2 t3 t4) fun m =>
+      if p.st = .faulty then
+        .ok (({ p with peer := .post id resp } : Port).setState .listening |>.1, some m,
+             ({ p with peer := .post id resp } : Port).setState .listening |>.2)
+      else .ok ({ p with peer := .post id resp }, some m, [])
+  | _ => p.extractSlave
 
 /-- `handle_time_measurement` -/
 def Port.timeMeasurement (p : Port) : R (Port × List Out) := do
@@ -256,16 +270,6 @@ def Port.timeMeasurement (p : Port) : R (Port × List Out) := do
       | some md => { p with meanDelay := some md }
       | none => p
     .ok (p, o ++ [.measurement m])
-
-/-- continue with the value, or report the overflow the Rust operator would raise -/
-def orOv {α β : Type} (x : Option α) (f : α → R β) : R β :=
-  match x with
-  | some a => f a
-  | none => .error .overflow
-
-/-- the port with an updated slave state -/
-def Port.withSlave (p : Port) (remote : PortId) (sy : SyncSt) (dl : DelaySt) (last : Option Int) : Port :=
-  { p with st := .slave remote sy dl last }
 
 /-- `handle_sync` once the sender is known to be the parent and the corrected receive time is computed -/
 def Port.syncStore (p : Port) (remote : PortId) (sy : SyncSt) (dl : DelaySt) (last : Option Int)
@@ -525,36 +529,43 @@ def InstState.applyParent (s : InstState) (a : Ann) : R InstState := do
                            gmP1 := a.body.p1, gmP2 := a.body.p2 },
                tp := annTimeProps a }
 
-/-- `handle_announce` -/
-def Port.handleAnnounce (p : Port) (s : InstState) (m : Msg) (ab : AnnounceBody) :
-    R (Port × InstState × List Out) := do
-  let a : Ann := ⟨m.header, ab⟩
-  let (s, loop) ←
-    if p.st.isSlave ∧ a.hdr.src = s.parent.parentPort then do
-      let s1 ← s.applyParent a
+/-- the data set half of `handle_announce`: a Slave port that hears its parent applies table 33 and the
+path trace list; the Bool is "clock loop detected" -/
+def Port.announceUpdate (p : Port) (s : InstState) (m : Msg) (a : Ann) : R (InstState × Bool) :=
+  if p.st.isSlave ∧ a.hdr.src = s.parent.parentPort then
+    match s.applyParent a with
+    | .error e => .error e
+    | .ok s1 =>
       if s1.pathEnable then
         match (tlvs m.suffix).find? (fun t => t.ty = TLV_PATH_TRACE) with
         | some t =>
-          let path := pathOf t.value
-          if path.contains s1.dflt.clockIdentity then pure (s1, true)
-          else if path.length > PATH_TRACE_CAP then .error .always
-          else pure ({ s1 with pathTrace := path }, false)
-        | none => pure (s1, false)
-      else pure (s1, false)
-    else pure (s, false)
-  if loop then .ok (p, s, [])
-  else
-    let (fml, ok) := bmcaRegister p.fml p.cfg.acceptable a
-    if ok then
-      let p := { p with fml := fml }
-      let (p, o) :=
-        if p.id.clock = m.header.src.clock ∧ p.id.port > m.header.src.port then
-          (if p.st = .faulty then ({ p with multiportDisable := some 0 }, [])
-           else ({ p with multiportDisable := some 0 }).setState .passive)
-        else (p, [])
-      let fwd := (tlvs m.suffix).filter (fun t => tlvPropagates t.ty) |>.map (fun t => Out.forward t m.header.src)
-      .ok (p, s, o ++ [.reset .receipt .rand] ++ fwd)
-    else .ok (p, s, [])
+          if (pathOf t.value).contains s1.dflt.clockIdentity then .ok (s1, true)
+          else if (pathOf t.value).length > PATH_TRACE_CAP then .error .always
+          else .ok ({ s1 with pathTrace := pathOf t.value }, false)
+        | none => .ok (s1, false)
+      else .ok (s1, false)
+  else .ok (s, false)
+
+/-- the registration half: foreign master list, multiport check, receipt timer, TLV forwarding -/
+def Port.announceRegister (p : Port) (m : Msg) (a : Ann) : Port × List Out :=
+  if (bmcaRegister p.fml p.cfg.acceptable a).2 then
+    let p1 : Port := { p with fml := (bmcaRegister p.fml p.cfg.acceptable a).1 }
+    let fwd := ((tlvs m.suffix).filter (fun t => tlvPropagates t.ty)).map (fun t => Out.forward t m.header.src)
+    if p1.id.clock = m.header.src.clock ∧ p1.id.port > m.header.src.port then
+      (if p1.st = .faulty then ({ p1 with multiportDisable := some 0 }, [.reset .receipt .rand] ++ fwd)
+       else ((({ p1 with multiportDisable := some 0 } : Port).setState .passive).1,
+             (({ p1 with multiportDisable := some 0 } : Port).setState .passive).2 ++ [.reset .receipt .rand] ++ fwd))
+    else (p1, [.reset .receipt .rand] ++ fwd)
+  else (p, [])
+
+/-- `handle_announce` -/
+def Port.handleAnnounce (p : Port) (s : InstState) (m : Msg) (ab : AnnounceBody) :
+    R (Port × InstState × List Out) :=
+  match p.announceUpdate s m ⟨m.header, ab⟩ with
+  | .error e => .error e
+  | .ok (s1, loop) =>
+    if loop then .ok (p, s1, [])
+    else .ok ((p.announceRegister m ⟨m.header, ab⟩).1, s1, (p.announceRegister m ⟨m.header, ab⟩).2)
 
 /-! ### receive paths (`port/mod.rs`) -/
 
@@ -594,11 +605,12 @@ def Port.handleEventReceive (p : Port) (s : InstState) (data : List UInt8) (ts :
 def Port.handleReceiptTimer (p : Port) (s : InstState) : Port × List Out :=
   if p.st = .faulty then (p, [.reset .receipt .rand])     -- since the `fix:` commit: a faulty port stays faulty
   else if s.dflt.slaveOnly then
-    let (p, o) := if p.st ≠ .listening then p.setState .listening else (p, [])
-    (p, o ++ [.reset .receipt .rand])
+    (if p.st ≠ .listening then ((p.setState .listening).1, (p.setState .listening).2 ++ [.reset .receipt .rand])
+     else (p, [.reset .receipt .rand]))
   else
-    let (p, o) := if p.st ≠ .master then p.setState .master else (p, [])
-    (p, o ++ [.reset .announce (.exact 0), .reset .sync (.exact 0)])
+    (if p.st ≠ .master then
+       ((p.setState .master).1, (p.setState .master).2 ++ [.reset .announce (.exact 0), .reset .sync (.exact 0)])
+     else (p, [.reset .announce (.exact 0), .reset .sync (.exact 0)]))
 
 def Port.handleSendTimestamp (p : Port) (s : InstState) (ctx : TsCtx) (ts : Nat) : R (Port × List Out) :=
   match ctx with
@@ -609,45 +621,43 @@ def Port.handleSendTimestamp (p : Port) (s : InstState) (ctx : TsCtx) (ts : Nat)
 
 /-! ### BMCA application (`port/bmca.rs`, InBmca half) -/
 
-/-- `set_recommended_port_state`; returns port, events (demobilize), pending actions (`none` = unchanged) -/
-def Port.setRecommendedPortState (p : Port) (r : Recommended) (d : DefaultDS) :
-    R (Port × List Out × Option (List Out)) :=
+/-- the decision half of `set_recommended_port_state`: `none` = the port stays as it is; otherwise the
+new state and the pending actions (`none` = pending actions untouched) -/
+def portMove (p : Port) (r : Recommended) (d : DefaultDS) : Option (PState × Option (List Out)) :=
   match r with
   | .s1 a =>
-    if p.cfg.masterOnly then .error .assertDbg else
-    let remote := a.hdr.src
-    let update := match p.st with
-      | .faulty => false
-      | .slave old .. => old ≠ remote
-      | _ => true
-    if update then
-      let (p, o) := p.setState (.slave remote .empty .empty none)
-      .ok (p, o, some [.reset .receipt .rand, .reset .delay (.exact 0)])
-    else .ok (p, [], none)
+    match p.st with
+    | .faulty => none
+    | .slave old _ _ _ =>
+      if old ≠ a.hdr.src then some (.slave a.hdr.src .empty .empty none, some [.reset .receipt .rand, .reset .delay (.exact 0)])
+      else none
+    | _ => some (.slave a.hdr.src .empty .empty none, some [.reset .receipt .rand, .reset .delay (.exact 0)])
   | .m1 _ | .m2 _ | .m3 _ =>
     if d.slaveOnly then
       match p.st with
-      | .listening | .faulty => .ok (p, [], none)
-      | _ =>
-        let (p, o) := p.setState .listening
-        .ok (p, o, some [.reset .receipt .rand])
+      | .listening | .faulty => none
+      | _ => some (.listening, some [.reset .receipt .rand])
     else if p.multiportDisable.isSome then
-      if p.st ≠ .passive ∧ p.st ≠ .faulty then
-        let (p, o) := p.setState .passive
-        .ok (p, o, none)
-      else .ok (p, [], none)
+      (if p.st ≠ .passive ∧ p.st ≠ .faulty then some (.passive, none) else none)
     else
       match p.st with
-      | .master | .faulty => .ok (p, [], none)
-      | _ =>
-        let (p, o) := p.setState .master
-        .ok (p, o, some [.reset .announce (.exact 0), .reset .sync (.exact 0)])
+      | .master | .faulty => none
+      | _ => some (.master, some [.reset .announce (.exact 0), .reset .sync (.exact 0)])
   | .p1 _ | .p2 _ =>
     match p.st with
-    | .passive | .faulty => .ok (p, [], none)
-    | _ =>
-      let (p, o) := p.setState .passive
-      .ok (p, o, none)
+    | .passive | .faulty => none
+    | _ => some (.passive, none)
+
+def Recommended.isS1 : Recommended → Bool | .s1 _ => true | _ => false
+
+/-- `set_recommended_port_state`; returns port, events (demobilize), pending actions (`none` = unchanged) -/
+def Port.setRecommendedPortState (p : Port) (r : Recommended) (d : DefaultDS) :
+    R (Port × List Out × Option (List Out)) :=
+  if r.isS1 ∧ p.cfg.masterOnly then .error .assertDbg
+  else
+    match portMove p r d with
+    | none => .ok (p, [], none)
+    | some (st, pd) => .ok ((p.setState st).1, (p.setState st).2, pd)
 
 def defaultTimeProps : TimeProps :=
   { utcOffset := none, leap := .none, timeTraceable := false, freqTraceable := false, ptpTimescale := true,
@@ -669,22 +679,27 @@ def Port.setRecommendedState (p : Port) (r : Recommended) (s : InstState) :
     let s1 ← s.applyParent a
     .ok (p, s1, ev ++ [.props s1.tp], pend)
 
+/-- ageing of the multiport-disable mark: dropped once it is an announce interval old -/
+def stepMultiport (md : Option Int) (step : Int) (announceLog : Int) : R (Option Int) :=
+  match md with
+  | none => .ok none
+  | some age =>
+    orOv (durAdd age step) fun age' =>
+      orOv (durFromLogInterval announceLog) fun ai =>
+        .ok (if age' < ai then some age' else none)
+
 /-- `step_announce_age` -/
-def Port.stepAnnounceAge (p : Port) (step : Int) : R Port := do
-  let md ← match p.multiportDisable with
-    | none => pure none
-    | some age => do
-      let age' ← liftOv (durAdd age step)
-      let ai ← liftOv (durFromLogInterval p.cfg.announceLog)
-      pure (if age' < ai then some age' else none)
-  .ok { p with multiportDisable := md, fml := p.fml.stepAge step }
+def Port.stepAnnounceAge (p : Port) (step : Int) : R Port :=
+  match stepMultiport p.multiportDisable step p.cfg.announceLog with
+  | .error e => .error e
+  | .ok md => .ok { p with multiportDisable := md, fml := p.fml.stepAge step }
 
 /-- `Port::new` (the state right after `add_port`) -/
-def Port.new (cfg : PortCfg) (id : PortId) : R Port := do
-  let ai ← liftOv (durFromLogInterval cfg.announceLog)
-  .ok { cfg := cfg, id := id, st := .listening,
-        fml := { masters := [], interval := durToTiv ai, own := id },
-        multiportDisable := none, annSeq := 0, syncSeq := 0, delaySeq := 0, pdelaySeq := 0,
-        meanDelay := none, peer := .empty }
+def Port.new (cfg : PortCfg) (id : PortId) : R Port :=
+  orOv (durFromLogInterval cfg.announceLog) fun ai =>
+    .ok { cfg := cfg, id := id, st := .listening,
+          fml := { masters := [], interval := durToTiv ai, own := id },
+          multiportDisable := none, annSeq := 0, syncSeq := 0, delaySeq := 0, pdelaySeq := 0,
+          meanDelay := none, peer := .empty }
 
 end Statime
